@@ -79,6 +79,7 @@ type VC struct {
 	allocBound string
 	footBusy  map[string]bool
 	rng       map[string][2]*big.Int
+	tagTypes  map[string]types.Type
 }
 
 func NewVC(eng *Engine, fn *ssa.Function) *VC {
@@ -253,6 +254,10 @@ func (vc *VC) typeTag(t types.Type) string {
 	}
 	n := len(vc.typeTags) + 1
 	vc.typeTags[k] = n
+	if vc.tagTypes == nil {
+		vc.tagTypes = map[string]types.Type{}
+	}
+	vc.tagTypes[k] = t
 	return num(int64(n))
 }
 
